@@ -33,7 +33,7 @@ fn n_sampled_chunks(tier: Tier) -> u64 {
 }
 
 /// The scenario carries the *full* observer set; the check strips it down to every subset.
-fn sampled(rng: &mut Rng) -> Scenario {
+pub(crate) fn sampled(rng: &mut Rng) -> Scenario {
     let m = gen_method(rng);
     let class = if rng.bool(0.1) { ProbClass::Hostile } else { ProbClass::Smooth };
     let (mut sc, p) = if class == ProbClass::Smooth {
